@@ -23,7 +23,7 @@ _STUBS = [
     "representation invariants assumed for the arbitrary start state: Merkle-Damgard: buffer_idx < N, processed_bytes mod N == buffer_idx, finished == false; "
     "sponge: offset < rate, can_absorb (and offset == 0 once finalized); BLAKE2: buflen <= block size",
     "domain: total message length < 2^61 bytes (SHA-1, SHA-224/256, RIPEMD-160) resp. 2^125 bytes (SHA-384/512/512t): the limits of the algorithms themselves; "
-    "BLAKE2: low counter word does not wrap within one step (t[0] <= MAX - 3 blocks) — the wrap is C20's c20_hash_blake2?_increment_counter",
+    "BLAKE2: two-word byte counter below 2^64 (2s) / 2^128 (2b) bytes (t[1] < MAX); wraps of the low counter word inside a step are INCLUDED (carry asserted)",
 ]
 
 PROPS = {}
